@@ -3,7 +3,7 @@ import re
 from ..engines import e2_errflow as e2
 from ..lib.cfgq import switch_edges, dominating_guards, natural_loops
 from ..lib.facts import is_callee, callee_fn, sp_str
-from ..lib.trace import Tracer, canon, canon_full, strip, walk
+from ..lib.trace import Tracer, canon, canon_full, strip, walk, inline_local_calls
 
 LEVEL_TEXT = ("Error-context discipline on the MIR: (a) wherever a statement handler is run from a loop over a block's statements, its result "
               "passes through with_context with a context built from the executing context's error_context before `?` (strict: stanza, scan "
@@ -122,6 +122,9 @@ def run(prog, rep):
         ok = len(news) == 1 and len(ex) == 1
         if ok:
             a = [canon_full(strip(tr.operand(x))) for x in news[0][1]["args"]]
+            a[2] = canon_full(inline_local_calls(prog, strip(tr.operand(news[0][1]["args"][2]))))   # a private helper may compute the node
+            while "*&" in a[2]:
+                a[2] = a[2].replace("*&", "")
             stmt = canon_full(strip(tr.operand(ex[0][1]["args"][0])))
             ok = a[0].lstrip("*") == stmt.lstrip("*") and a[1].lstrip("*") == "arg:self" and re.search(r"QueryMatch::nodes_for_capture_index\(&\*?\*?arg:mat, cast\(\*arg:self\.%s\)\)" % idx, a[2]) is not None
             # the context object handed to the statement carries it
@@ -165,8 +168,13 @@ def run(prog, rep):
             if is_callee(t, r"lazy::statements::Lazy(AddGraphNodeAttribute|CreateEdge|AddEdgeAttribute|Print)::new$", r"lazy::store::LazyStore::add$", r"lazy::store::LazyScopedVariables::add$"):
                 tr = tr or Tracer(f.body)
                 nd += 1
-                di = canon_full(tr.operand(t["args"][-1]))
-                rep.check(re.match(r"^Into::into\(Clone::clone\(&\*arg:exec\.error_context\)\)$", di) is not None, "E2.x-d", "%s :: %s origin #%d" % (f.id, callee_fn(t)["def"].rsplit("::", 2)[-2], nd), sp_str(t["sp"]),
+                de = tr.operand(t["args"][-1])
+                di = canon_full(de)
+                # look through clones and the StatementContext → DebugInfo conversion (however many bindings it went through)
+                inner = strip(de)
+                while inner[0] == "call" and inner[3] and re.search(r"convert::(Into::into|From::from)$", inner[1] or ""):
+                    inner = strip(inner[3][0])
+                rep.check(canon_full(inner).lstrip("*") == "arg:exec.error_context" and "Into::into(" in di, "E2.x-d", "%s :: %s origin #%d" % (f.id, callee_fn(t)["def"].rsplit("::", 2)[-2], nd), sp_str(t["sp"]),
                           "debug info = exec.error_context", "deferred work is created with `%s` instead of the executing statement's context" % di[:100])
     rep.floor("E2.x-d", nd, 8, "deferred-work creation sites")
     # evaluation side
